@@ -18,7 +18,8 @@ META = dict(
     stubs=[],
     bounds=dict(quick=dict(shapes="2-slot and 1-slot contexts x 8 conditional fillers (up to 3 nested ExprCond per slot), 3-slot contexts x 4 fillers, 8-bit values",
                            query_timeout_s=20),
-                thorough=dict(shapes="same grammar (identical to quick)", query_timeout_s=60)),
+                thorough=dict(shapes="quick + 3-slot contexts x all 9 fillers (2187) + nested one-slot contexts (441) + two-slot contexts of "
+                                     "one-slot contexts (3200)", query_timeout_s=60)),
     outside=["more than 6 conditionals per expression", "widths other than 8 bits for values (conditions: 1 and 8 bits)"],
     assumptions=["memory: one little-endian byte space (refsem flat model)", "a constraint <X == 0>/<X != 0> means refsem(X) == 0 / != 0"],
     rule="shape = context(slot fillers) with nested ExprCond in operands, slices, compose parts, memory pointers, "
@@ -87,10 +88,19 @@ def all_shapes(tier):
     for cn, cf in two:
         for (n1, f1), (n2, f2) in itertools.product(F, F):
             out.append(("%s | %s | %s" % (cn, n1, n2), cf(f1, f2)))
-    small = [F[1], F[2], F[4], F[6]]
+    small = [F[1], F[2], F[4], F[6]] if tier == 'quick' else F
     for cn, cf in three:
         for (n1, f1), (n2, f2), (n3, f3) in itertools.product(small, small, small):
             out.append(("%s | %s | %s | %s" % (cn, n1, n2, n3), cf(f1, f2, f3)))
+    if tier != 'quick':
+        # one-slot contexts nested in one another, and two-slot contexts whose slots are one-slot contexts
+        for (n1, c1), (n2, c2) in itertools.product(one, one):
+            for fn_, f in F:
+                out.append(("%s o %s | %s" % (n1, n2, fn_), c1(c2(f))))
+        for cn, cf in two:
+            for (n1, c1), (n2, c2) in itertools.product(one[:5], one[:5]):
+                for (fa, f1), (fb, f2) in itertools.product(small[1:5], small[1:5]):
+                    out.append(("%s | %s(%s) | %s(%s)" % (cn, n1, fa, n2, fb), cf(c1(f1), c2(f2))))
     return out
 
 
